@@ -25,7 +25,8 @@ def base_cfg(todo_p, todo_q, todo_s, msg):
                               "calls": [["Call1", ["%nope%"]]]}, {"todo": True, "value": "fx.GlobalVal"},
              {"todo": True, "type": "*fx.Obj", "getter": "GetS", "tags": ["t"], "constructor": "fx.NewA"}]
     svcs = {"s": forms[2 * todo_p + todo_q] if todo_s else {"constructor": "fx.NewA", "arguments": ["s"]},
-            "u": {"constructor": "fx.NewB", "arguments": ["@s", "%q%"]},
+            # the dependant has a typed getter: a dependency that is still a placeholder surfaces as the error from every getter form
+            "u": {"constructor": "fx.NewB", "arguments": ["@s", "%q%"], "type": "*fx.Obj", "getter": "GetU", "must_getter": True},
             "n": {"constructor": "fx.NewC", "arguments": ["%p%", "%c%"], "scope": "non_shared"}}
     # a message may contain anything a Go string literal can: parentheses, commas
     params["pp"] = '%todo("ask ops (see wiki/secrets, section 2)")%' if (todo_p or todo_q) else "plain"
@@ -35,6 +36,7 @@ def base_cfg(todo_p, todo_q, todo_s, msg):
 
 
 OPS = [["param", "p"], ["param", "q"], ["param", "c"], ["param", "pp"], ["param", "al"], ["get", "s"], ["get", "u"], ["get", "n"],
+       ["call", "GetUInContext", "c1"], ["call", "MustGetU"],
        ["ovparam", "p", {"k": "str", "v": "P2"}], ["ovparam", "q", {"k": "int", "v": 7}], ["ovservice", "s", {"k": "obj", "v": "S2"}]]
 
 
@@ -53,7 +55,7 @@ def run(ctx, maxlen=None):
     items = []
     for cfg in cfgs:
         for h in hist:
-            ops = [["counters"]] + [OPS[i] for i in h] + [["counters"]]
+            ops = [["counters"], ["newctx", "c1"]] + [OPS[i] for i in h] + [["counters"]]
             items.append((cfg, ops))
     # one package per configuration is enough: group scripts by configuration
     out, err, groups = run_grouped(ctx, cfgs, [[(["counters"]), ] for _ in cfgs], items)
@@ -75,7 +77,7 @@ def run(ctx, maxlen=None):
                 if len(corr_fail) < 10:
                     corr_fail.append({"op": "rt:history", "files": files, "history": oa, "at": x[0], "impl": x[1], "model": x[2]})
         # direct oracle
-        ovp, ovs, al_done = {}, False, False
+        ovp, ovs, al_done, u_built = {}, False, False, False
         c0 = impl[0]["ok"].get("probe/fx.Fn1", 0)
         c1 = impl[-1]["ok"].get("probe/fx.Fn1", 0)
         uses_c = sum(1 for o in oa if o in (["param", "c"], ["get", "n"]))
@@ -106,6 +108,15 @@ def run(ctx, maxlen=None):
                     want = json.loads(raw[6:-2]) if raw[6:-2] else "parameter todo"
                     if "err" not in r or want not in r["err"]:
                         violations.append({"sig": "todo-param-no-error", "what": "GetParam(%s) of a todo parameter: %r, expected the error %r" % (o[1], r, want), "files": files, "history": oa})
+            elif o[0] == "call" or o == ["get", "u"]:
+                # u needs s and q (q needs p): while one of them is a placeholder nobody has overridden, every way of asking for u fails
+                praw = cfg["parameters"]
+                p_todo = str(praw["p"]).startswith("%todo(") and "p" not in ovp
+                q_todo = "q" not in ovp and (str(praw["q"]).startswith("%todo(") or p_todo)
+                s_todo = cfg["services"]["s"].get("todo") and not ovs
+                if (s_todo or q_todo) and not u_built and "ok" in r:
+                    violations.append({"sig": "todo-dependency-no-error", "what": "%r while a dependency of u is still a placeholder (s todo: %s, q todo: %s) returns %r instead of an error" % (o, bool(s_todo), bool(q_todo), r), "files": files, "history": oa})
+                u_built = u_built or "ok" in r
             elif o == ["get", "s"] and cfg["services"]["s"].get("todo"):
                 if not ovs:
                     dist["todo_errors_seen"] += 1
@@ -115,6 +126,28 @@ def run(ctx, maxlen=None):
                     violations.append({"sig": "override-not-visible", "what": "Get(s) after OverrideService still fails: %r" % (r,), "files": files, "history": oa})
         nontriv.add(json.dumps(oa) + files[0][:0] + str(sorted(k for k, v in cfg["parameters"].items() if "todo" in str(v))) + str(bool(cfg["services"]["s"].get("todo"))))
     env_histories(ctx, violations, corr_fail, dist)
+    # a placeholder counts as declared for its dependants in every respect — also with the scope it declares: a shared service
+    # that depends on a contextual placeholder is refused like one that depends on a contextual live service
+    for dep_scope, top_scope, via, want_err in (("contextual", "shared", False, True), ("contextual", "shared", True, True), ("contextual", None, False, False),
+                                                ("shared", "shared", False, False), (None, "shared", False, False)):
+        svcs = {"session": {"todo": True}, "server": {"constructor": "fx.NewA", "arguments": ["@mid" if via else "@session"]}}
+        if via:
+            svcs["mid"] = {"constructor": "fx.NewA", "arguments": ["@session"]}
+        if dep_scope:
+            svcs["session"]["scope"] = dep_scope
+        if top_scope:
+            svcs["server"]["scope"] = top_scope
+        y = gen.yaml_doc({"meta": {"pkg": "gen", "imports": {"fx": gen.FX}}, "services": svcs})
+        a = ctx.impl.ask({"op": "compile", "files": [y], "version": ""})
+        got = bool(a.get("scope"))
+        dist["todo_scope_cases"] = dist.get("todo_scope_cases", 0) + 1
+        if got != want_err or a.get("errs") or a.get("services"):
+            violations.append({"sig": "todo-scope-not-counted", "what": "placeholder declared %s, dependant declared %s%s: scope rule reports %r (other diagnostics %r), expected %s" % (
+                dep_scope, top_scope, " through a default-scoped service" if via else "", a.get("scope"), (a.get("errs") or a.get("services")), "a scope error" if want_err else "none"), "files": [y]})
+        if ctx.have_model and "input" in a:
+            b = ctx.model.ask({"op": "compile", "input": a["input"], "version": ""})
+            if b.get("scope") != a.get("scope") and len(corr_fail) < 10:
+                corr_fail.append({"op": "compile:scope", "files": [y], "impl": a.get("scope"), "model": b.get("scope")})
     return {"evaluations": dist["histories"] + dist.get("env_histories", 0), "distinct_nontrivial": len(nontriv), "programs": len(cfgs) + 1,
             "rule": "8 configurations (every subset of {p, q, s} marked todo) x histories over {GetParam p/q/c, Get s/u/n, OverrideParam p/q, OverrideService s} up to length %d (%s); fresh container per history; distinct = distinct (todo subset, history)" % (maxlen, "sampled" if ctx.quick else "exhaustive"),
             "samples": [{"history": o[0][1][1:-1], "todo": [k for k, v in o[0][0]["parameters"].items() if "todo" in str(v)]} for o in out[:3]],
